@@ -35,6 +35,8 @@ pub enum Kind {
     Pin,
     /// a driver-side `assume`: never flipped
     Assume,
+    /// random-oracle argument (dis)equality: a real branch, but explored with low priority
+    RoArg,
 }
 
 #[derive(Clone, Copy, Debug)]
